@@ -1212,6 +1212,7 @@ async fn load_targets(
             max_targets_size,
             delegations,
             datastore,
+            &mut vec!["targets".to_owned()],
         )
         .await?;
     }
@@ -1232,10 +1233,19 @@ async fn load_delegations(
     max_targets_size: u64,
     delegation: &mut Delegations,
     datastore: &Datastore,
+    ancestors: &mut Vec<String>,
 ) -> Result<()> {
     let mut delegated_roles: HashMap<String, Option<Signed<crate::schema::Targets>>> =
         HashMap::new();
     for delegated_role in &delegation.roles {
+        // A role that is delegated to by itself or by one of its own delegates would be loaded
+        // forever.
+        ensure!(
+            !ancestors.contains(&delegated_role.name),
+            error::DelegatedRolesNotConsistentSnafu {
+                name: delegated_role.name.clone(),
+            }
+        );
         // find the role file metadata
         let role_meta = snapshot
             .signed
@@ -1316,6 +1326,7 @@ async fn load_delegations(
                 })?;
         if let Some(targets) = &mut delegated_role.targets {
             if let Some(delegations) = &mut targets.signed.delegations {
+                ancestors.push(delegated_role.name.clone());
                 load_delegations(
                     transport,
                     snapshot,
@@ -1324,8 +1335,10 @@ async fn load_delegations(
                     max_targets_size,
                     delegations,
                     datastore,
+                    ancestors,
                 )
                 .await?;
+                ancestors.pop();
             }
         }
     }
